@@ -11,7 +11,7 @@ import os
 
 import numpy as np
 
-from ..kernel import adigest, sdigest, HarnessBug, scribble
+from ..kernel import adigest, sdigest, HarnessBug, scribble, Held
 from ..refs import rectab as T
 from .. import present
 from .recplan import plan, simplify, describe  # noqa: F401  (engine interface)
@@ -32,6 +32,7 @@ class World(object):
         self.tabcache = {}
         self.cfg = script.get("cfg", {})
         self.workbufs = []   # chunks handed to writers by the operation that just finished
+        self.held = Held()   # results the caller still holds: verified unchanged, then edited, before the next operation
         self.nspell = 0
         self.reused = {}     # (caller, kind) -> long-lived SFile / Recfile object re-open()ed per file
         self.cur = 0         # caller of the operation being executed
@@ -311,6 +312,10 @@ def execute(script, run, env):
                 run.fault("interleaved_callers")
             prev_c = c
             w.cur = c
+            if w.held.items:
+                w.held.settle(run, "rec.result_overwritten", {"after": script["ops"][i - 1]["k"] if i else ""})
+                if run.failures and not script.get("keep_going"):
+                    break
             if w.workbufs:
                 if scribble(w.workbufs):
                     run.fault("caller_refilled_its_work_buffer_after_a_write")
@@ -668,8 +673,7 @@ def op_read(w, op, mods):
             check_header(w, m, hdr, "rec.read.header", feats)
     if hdr is not None:
         _scribble(w, hdr)
-    if scribble(got):
-        run.fault("caller_edited_a_result_in_place")
+    w.held.hold(got)
 
 
 def op_header(w, op, mods):
@@ -1376,9 +1380,12 @@ def op_hread(w, op, mods):
     m = _need_file(w, p)
     if m.get("writers", 0) > 0 and (h is None or h["role"] != "w"):
         raise Skip("writer open")
-    full = m.get("full")
-    if full is None:
-        full = m["full"] = _reference_full(w, m, p, mods)
+    if w.prop == "C02":
+        full = m.get("full")        # C02 files never change once they are stored
+        if full is None:
+            full = m["full"] = _reference_full(w, m, p, mods)
+    else:
+        full = _reference_full(w, m, p, mods)      # the model as it is NOW (chunks may have been appended)
     if full is None:
         raise Skip("full read unavailable")
     n = full.shape[0]
@@ -1435,6 +1442,15 @@ def op_hread(w, op, mods):
         if d:
             run.fail("rec.select.value", feats, "selection %r through %s on %s (%d rows x %r): %s"
                      % (_sel_str(sel), h["kind"] if h else entry, p, n, list(full.dtype.names), d))
+    elif w.prop in ("C01", "C03", "C04") and sel.get("rows") is not None and sel.get("cols") is None and kind == "table" \
+            and h is not None and h.get("role") == "w" and h.get("mode") == "r+" and not h.get("created"):
+        # a PARTIAL read-back through the r+ handle: the rows of the model (all chunks, in order) that were asked for
+        run.checks += 1
+        g = got.reshape(1) if isinstance(got, np.ndarray) and got.ndim == 0 else got
+        d = T.exact_table_diff(g, exp) if m["delim"] is None else T.text_table_diff(g, exp)
+        if d:
+            run.fail("rec.readback.handle", _feat(m, kind=h["kind"], mode=h["mode"], part="rows"),
+                     "reading back %s through the %s handle after %d writes: %s" % (_sel_str(sel), h["mode"], h.get("writes", 0), d))
     elif w.prop in ("C01", "C03", "C04") and sel.get("rows") is None and sel.get("cols") is None and kind == "table":
         # read-back through the writing handle itself (r+)
         run.checks += 1
@@ -1442,8 +1458,7 @@ def op_hread(w, op, mods):
         if d:
             run.fail("rec.readback.handle", _feat(m, kind=h["kind"] if h else entry, mode=h["mode"] if h else ""),
                      "reading back through the %s handle after %d writes: %s" % (h["mode"] if h else "", h.get("writes", 0) if h else 0, d))
-    if scribble(got):
-        run.fault("caller_edited_a_result_in_place")
+    w.held.hold(got)
 
 
 def _sel_str(sel):
